@@ -1,35 +1,10 @@
 import CvssVerif.Basic.Bytes
+import CvssVerif.Basic.Vocab
 import CvssVerif.Basic.F64
 /-
   Shared vocabulary of the models of `v3/metric` and `v2/metric`.
 -/
 namespace CvssVerif
-
-/-- Which Go type an object is: `*Base`, `*Temporal`, `*Environmental`. -/
-inductive Level | base | temporal | environmental
-  deriving DecidableEq, Repr, Inhabited
-
-def Level.toNat : Level → Nat
-  | .base => 0 | .temporal => 1 | .environmental => 2
-def Level.le (a b : Level) : Bool := a.toNat ≤ b.toNat
-def Level.all : List Level := [.base, .temporal, .environmental]
-def Level.tag : Level → String
-  | .base => "B" | .temporal => "T" | .environmental => "E"
-
-/-- The eleven sentinels of `cvsserr/errors.go`. -/
-inductive Err
-  | nullPointer | invalidVector | notSupportVer | notSupportMetric | invalidTemplate
-  | sameMetric | invalidValue | noBaseMetrics | noTemporalMetrics | noEnvironmentalMetrics
-  | misordered
-  deriving DecidableEq, Repr, Inhabited
-
-def Err.tag : Err → String
-  | .nullPointer => "NullPointer" | .invalidVector => "InvalidVector"
-  | .notSupportVer => "NotSupportVer" | .notSupportMetric => "NotSupportMetric"
-  | .invalidTemplate => "InvalidTemplate" | .sameMetric => "SameMetric"
-  | .invalidValue => "InvalidValue" | .noBaseMetrics => "NoBaseMetrics"
-  | .noTemporalMetrics => "NoTemporalMetrics"
-  | .noEnvironmentalMetrics => "NoEnvironmentalMetrics" | .misordered => "Misordered"
 
 /-- A metric as the decoder sees it: its name, the level whose `decodeOne` handles it, the
     value ↔ code table (`map[T]string` in Go) and the value the constructor stores. The
